@@ -162,7 +162,10 @@ def run(scn):
         ye = max(h[5] for h in late)
         last2 = [h for h in hist if h[0] >= scn["tf"] - 2.0]
         spm = max(float(np.linalg.norm(h[4] - last2[0][4])) for h in last2)
-        metrics = {"pos_err_late": pe, "tilt_late": te, "rate_late": we, "att_err_late": ye, "sp_motion_last2s": spm,
+        x0 = np.array(scn["x0"], dtype=float)
+        d0 = float(np.linalg.norm(x0[0:3] - sp))
+        sp_drag = float(np.linalg.norm(hist[-1][4] - sp))  # how far the leash carried the hover point away from the commanded one
+        metrics = {"d0": d0, "tilt0": tilt_of(x0[6:10]), "sp_drag": sp_drag, "pos_err_late": pe, "tilt_late": te, "rate_late": we, "att_err_late": ye, "sp_motion_last2s": spm,
                    "sp_final_offset": float(np.linalg.norm(hist[-1][4] - sp))}
         if pe > POS_TOL:
             violation("position_not_converged", "closed loop (%s)" % mode, "position error %.4f m after t=%g s (limit %.2f m); yaw set-point %.3f rad" % (pe, T_CONV[mode], POS_TOL, scn.get("psi_sp", 0.0)), mode=mode)
